@@ -7,9 +7,10 @@
 (*      up   : y[i] = F(sum over children c of y[c], a[i], ...)                                *)
 (*      types: y[i] = G(type i, a[i], ...)                                                     *)
 (* for EVERY forest (parents before children) and EVERY admissible type string up to N links.  *)
-EXTENDS Integers, Sequences, FiniteSets, TLC
+EXTENDS Integers, Sequences, FiniteSets, TLC, Prng
 
-CONSTANTS N           \* maximum number of links
+CONSTANTS N,          \* maximum number of links (exhaustive part)
+          NBig, BigLinks, SeedBase   \* NBig pseudo-random recursive trees with BigLinks single-dof links (wide levels)
 
 VARIABLES parents,    \* parents[i] in 0..i-1 (0 = no parent); links are 1..n
           types,      \* types[i] in {"f", "1", "2", "3"} ; "f" only on roots
@@ -86,9 +87,16 @@ TypesScan == LET ys == [k \in 1..n |-> G(TypeOrderLinks[k])] IN [i \in 1..n |-> 
 TypeSet(p) == IF p = 0 THEN {"f", "1", "2", "3"} ELSE {"1", "2", "3"}
 Init ==
   /\ phase = "init" /\ out = <<>>
-  /\ \E m \in 1..N :
-       /\ parents \in {p \in [1..m -> 0..(m - 1)] : \A i \in 1..m : p[i] < i}
-       /\ types \in {t \in [1..m -> {"f", "1", "2", "3"}] : \A i \in 1..m : t[i] \in TypeSet(parents[i])}
+  /\ \/ \E m \in 1..N :
+          /\ parents \in {p \in [1..m -> 0..(m - 1)] : \A i \in 1..m : p[i] < i}
+          /\ types \in {t \in [1..m -> {"f", "1", "2", "3"}] : \A i \in 1..m : t[i] \in TypeSet(parents[i])}
+     \* bigger forests: levels with several parents that have different numbers of children (parent maps with repeats
+     \* and gaps), which small forests cannot contain
+     \/ \E k \in 1..NBig :
+          LET g == GenV(SeedBase + k, 2 * BigLinks, 97) IN
+          /\ parents = [i \in 1..BigLinks |-> IF i = 1 THEN 0 ELSE IF g[i] % 5 = 0 THEN 0 ELSE (g[i] % (i - 1)) + 1]
+          /\ types = [i \in 1..BigLinks |-> IF parents[i] = 0 /\ g[BigLinks + i] % 3 = 0 THEN "f"
+                                             ELSE <<"1", "1", "2", "3">>[(g[BigLinks + i] % 4) + 1]]
 
 Compute ==
   /\ phase = "init" /\ phase' = "done"
